@@ -4,7 +4,7 @@ from model import (dstr, strip, fact_holds, mentions_field, mentions_call, menti
                    mentions_enum, const_value, walk)
 from rules import (guarded, calls_to, field_writes, who_may_write, loops_over, basename, origins,
                    is_var, is_enum, lastname, reject_if, _resolve_local, reached_only_via)
-from props.scan_common import OUTDIRTY, ts_comparisons
+from props.scan_common import OUTDIRTY, ts_comparisons, check_prune_recheck
 
 
 def oo(a):
@@ -151,7 +151,8 @@ def run(ctx):
     ok = any(mentions_call(e.get('r'), 'RecomputeOutputsDirtyCache::all') for e in rod.events('asg'))
     ctx.check('C03.O1', ok, rod.name, 'RecomputeOutputsDirty:not-all', rod.loc,
               'the re-check is the full output check (RecomputeOutputsDirtyCache::all)')
-    ctx.floor('C03.O1', 6)
+    check_prune_recheck(ctx, 'C03.O1', prog)
+    ctx.floor('C03.O1', 8)
 
     # ---- G4: ready edges are not planned ------------------------------------------------------
     R('C03.G4', 'G', 'an edge whose outputs are ready is never inserted into the plan')
